@@ -76,7 +76,20 @@ CLAIMS["C20"] = {
     "design_ref": "DESIGN.md section 5, C20",
 }
 
+CLAIMS["C10"] = {
+    "text": "Proof of the decision logic over the request as net/http parsed it: the server accepts iff authorised, GET, version 13, Upgrade =fold websocket, the upgrade TOKEN present among the comma-separated elements of all Connection lines, key non-empty and (no server subprotocols or a common one over all offer lines) (Hs.upgrade_iff); on accept the 101 carries Accept = base64(sha1(key+GUID)) with SHA-1/base64 defined in Lean, the first server-preferred common subprotocol, the extension header iff negotiated, and no protected header from canonical extra headers (response_fields); every reject writes a 400, closes and returns no connection (reject_no_101). net/http parsing and session isolation are sampled, not proved (partial).",
+    "note": "Trusted: Lean kernel; net/http parsing; model tied by the hs-server suite (raw requests through http.ReadRequest + UpgradeFromConn).",
+    "technique": "Lean 4 decision-logic proof over a model of doUpgradeFromConn + differential correspondence with raw requests",
+    "design_ref": "DESIGN.md section 5, C10",
+}
+CLAIMS["C11"] = {
+    "text": "Proof of the validation logic: the client returns a connection iff status 101, the upgrade token is among the Connection elements, Upgrade =fold websocket, Accept = base64(sha1(key+GUID)) and (no subprotocol requested or a requested one selected) (Hs.client_accepts_iff); every reject closes the transport; the five handshake headers override user headers. Key freshness, time-out, trailing-frame hand-over and goroutine hygiene are runtime clauses observed by the hs-client and faults suites (partial).",
+    "note": "Trusted: Lean kernel; net/http parsing; runtime clauses observed only.",
+    "technique": "Lean 4 decision-logic proof over a model of the client handshake + differential correspondence with a scripted raw server + fault enumeration",
+    "design_ref": "DESIGN.md section 5, C11",
+}
+
 NOT_CLAIMED = {}
 
 # checks that exist but are not claimed in this commit (with the reason)
-PENDING = {"C20": "model is being updated to the repaired Deque.Reset (fix commit in /repo); claimed again once the proofs follow"}
+PENDING = {}
